@@ -8,7 +8,9 @@
 (* RoundTrip: read(Out(T)) = T; Stable: write(read(Out(T))) = Out(T); Rejects/Total as for the mesh files.            *)
 EXTENDS Integers, Sequences, FiniteSets, Json, TLC
 
-CONSTANTS Variants,   \* subset of 0..4: how values are assigned to keys
+CONSTANTS Variants,   \* subset of 0..5: how values are assigned to keys
+          KeySets,    \* set of subsets of {1, 2, 3}: which root keys exist
+          SecShapes,  \* subset of 0..4: shapes of the two top level sections
           Muts
 
 VARIABLES ph, tree, mut
@@ -87,7 +89,7 @@ Mutations(T) ==
 
 NoMut == [kind |-> "none"]
 Init == /\ ph = "doc" /\ mut = NoMut
-        /\ \E S \in SUBSET {1, 2, 3}, sh1 \in 0..4, sh2 \in 0..4, var \in Variants : tree = MkTree(S, sh1, sh2, var)
+        /\ \E S \in KeySets, sh1 \in SecShapes, sh2 \in SecShapes, var \in Variants : tree = MkTree(S, sh1, sh2, var)
 Mutate == /\ Muts /\ ph = "doc" /\ ph' = "mut" /\ mut' \in Mutations(tree) /\ UNCHANGED tree
 Next == Mutate
 Spec == Init /\ [][Next]_vars
